@@ -38,6 +38,8 @@ mod message;
 mod rtt;
 mod st_cred_mech;
 mod timeout;
+#[cfg(feature = "verif-hooks")]
+pub mod verif_hooks;
 
 pub use crate::client::RttConfig;
 pub use crate::client::StunClient;
